@@ -375,6 +375,11 @@ type Config struct {
 	MaxExecs int           // cap on executions (0 = none); hitting it makes the result non-exhaustive
 	Timeout  time.Duration // per-execution watchdog (default 20s)
 	Deadline time.Time     // stop exploring (non-exhaustive) after this instant; zero = none
+	// DelayBounded counts every non-default choice as a deviation (delay bounding: the default scheduler
+	// continues the running thread and, when it blocks or ends, runs the lowest-id enabled thread).
+	// Without it only switches away from a still-runnable thread and non-default environment answers
+	// cost (preemption bounding), and choices after a block/end are free.
+	DelayBounded bool
 	// Shard/NShards split the level-1 subtrees over processes (NShards<=1: everything).
 	Shard, NShards int
 }
@@ -486,7 +491,7 @@ func Explore(cfg Config, setup Setup) Stats {
 			p := x.Points[i]
 			if i >= len(prefix) {
 				for alt := 1; alt < p.NOptions; alt++ {
-					c := cost + deviationCost(p, alt)
+					c := cost + deviationCost(cfg, p, alt)
 					if cfg.Bound >= 0 && c > cfg.Bound {
 						continue
 					}
@@ -505,16 +510,19 @@ func Explore(cfg Config, setup Setup) Stats {
 					rec(np, depth+1)
 				}
 			}
-			cost += deviationCost(p, p.Chosen)
+			cost += deviationCost(cfg, p, p.Chosen)
 		}
 	}
 	rec(nil, 0)
 	return st
 }
 
-func deviationCost(p PointInfo, choice int) int {
+func deviationCost(cfg Config, p PointInfo, choice int) int {
 	if choice == 0 {
 		return 0
+	}
+	if cfg.DelayBounded {
+		return 1
 	}
 	if p.Env {
 		return 1
